@@ -14,7 +14,7 @@ def run(tier, seed):
     common.PID_ALIAS.update({"SQLM": "C08", "KVW": "C08", "KVM": "C08"})
     from .. import extra
     return common.drop_foreign(sqlm.suites_c08(tier, seed) + kvb.suites_c08(tier, seed)
-                               + [extra.suite_removed_unreachable_after_read(tier, seed, ("delete5",))], "C08")
+                               + [extra.suite_removed_unreachable_after_read(tier, seed, ("delete5",)), extra.suite_int_tag_items(tier, seed)], "C08")
 
 
 def replay(payload):
